@@ -1,7 +1,7 @@
 (* C10 — A failed parse reports a real failure offset - the furthest one without memo. *)
 From PegV Require Import Utf8 Utf8Facts State Terminals TerminalsSpec TerminalsOk Syntax Fields
   FieldsFacts GetFieldsFacts Literals LiteralsFacts Model Spec ShapeFacts ErrLog Sim Conform ConformX Extracted Real.
-From PegV Require Import CleanFrame UsualShape Indirect NoSentinel UsualShapeExamples.
+From PegV Require Import CleanFrame UsualShape UsualShapeN Indirect NoSentinel UsualShapeExamples.
 From PegV Require Local LocalConform.
 
 Theorem C10_facts :
@@ -187,3 +187,43 @@ Theorem C10_no_sentinel_indirect :
   e_spec e <> LeftRecursionSentinel.
 Proof. exact indirect_no_sentinel. Qed.
 Print Assumptions C10_no_sentinel_indirect.
+
+(* ... and for several recursive alternatives first followed by at least one other alternative
+   ( A = l1:A x1... | l2:A x2... | ... | b1 | ... , UsualShapeN.v): every recursive alternative fails with the
+   planted error on the seed turn, the other alternatives then record a real failure *)
+Theorem C10_no_sentinel_usualN :
+  forall (ustate : Type) (scfg : state_cfg),
+  rec_le scfg = true ->
+  forall (tcfg : term_cfg) (fcfg : fields_cfg) (rcfg : rule_cfg),
+  leftrec_closed rcfg = true ->
+  forall (hk : hooks ustate) (g : grammar) (A : rule),
+  find_grule g (r_name A) = Some (GRule A) ->
+  fl_left_recursive (flags_of (r_directives A)) = true ->
+  forall (recs : list ralt) (b1 : expr) (balts' : list expr) (al1 al2 : expr) (alr : list expr),
+  map (ralt_e A) recs ++ b1 :: balts' = al1 :: al2 :: alr ->
+  r_def A = adefN A recs (b1 :: balts') ->
+  forall rf fds : list fdesc,
+  get_fields fcfg (gf_fuel g) g (adefN A recs (b1 :: balts')) = GFOk rf ->
+  filt fcfg g (actx A rf) (adefN A recs (b1 :: balts')) = Some fds ->
+  forall fds1_of inner_of : ralt -> list fdesc,
+  (forall r : ralt,
+   In r recs ->
+   filt fcfg g (actx A rf) (ralt_e A r) = Some (fds1_of r) /\
+   own_fields fcfg g (ralt_e A r) = Some (inner_of r)) ->
+  forall clean : name -> bool,
+  (forall n : name, clean n = true -> rule_clean g clean n) ->
+  (forall (n : name) (r : rule),
+   clean n = true -> find_rule g n = Some r -> eclean clean (r_def r) = true) ->
+  clean n_Whitespace = true ->
+  (forall r : ralt, In r recs -> lclean clean (ra_x1 r :: ra_xs r) = true) ->
+  forall (r1 : ralt) (recs' : list ralt),
+  recs = r1 :: recs' ->
+  lclean clean (b1 :: balts') = true ->
+  forall (st : pstate) (F : nat) (gl : glob ustate) (e : perr) (gl' : glob ustate),
+  ws_trivial g A rf st ->
+  (forall f : perr, far st = Some f -> e_spec f <> LeftRecursionSentinel) ->
+  cache_get (r_name A) (off st) (g_cache gl) = None ->
+  ev_rule (run ustate scfg tcfg fcfg rcfg hk g F) (r_name A) st gl = (MErr e, gl') ->
+  e_spec e <> LeftRecursionSentinel.
+Proof. exact usualN_no_sentinel. Qed.
+Print Assumptions C10_no_sentinel_usualN.
